@@ -260,9 +260,13 @@ impl<'ast, 'arena> ProgramFacts<'ast, 'arena> {
         if function.locals_len == 0 {
             function.locals_start = id.0;
         }
+        // Ids come from one counter shared by all functions, and a nested function body is
+        // resolved between two declarations of its parent, so a function's ids are not
+        // contiguous. Keep the range as the span up to the newest id: it covers every local of
+        // the function (and possibly some of nested functions, which users of the range ignore).
+        function.locals_len = id.0 + 1 - function.locals_start;
         self.locals.push(LocalInfo { name, owner, declaring_scope, decl_span, decl_stmt, kind });
         self.scope_locals[declaring_scope.0 as usize].push(id);
-        function.locals_len += 1;
         id
     }
 
